@@ -556,7 +556,7 @@ def capsule_capsule_wrapper(
     cap2_axis,
     cap2.size[0],  # radius2
     cap2.size[1],  # half_length2
-    margin,
+    margin + gap,  # detect contacts in the gap band as well (write_contact filters)
   )
 
   for i in range(2):
@@ -1291,7 +1291,7 @@ def box_box_wrapper(
     box2.pos,
     box2.rot,
     box2.size,
-    margin,
+    margin + gap,  # detect contacts in the gap band as well (write_contact filters)
   )
 
   for i in range(8):
